@@ -31,7 +31,7 @@ Proof.
   intros G Hi Ed E. unfold dom_complement in *. destruct Hi as [Hg Hl]. rewrite Hg, Ed in *.
   assert (Hk : class_kind ct (o_cls ob) = Some KindD).
   { destruct (g_dok _ _ G) as [_ [_ K]]. rewrite (K i ob (conj Hg Hl)), Ed. reflexivity. }
-  assert (Hl0 : l <> 0%Z) by (destruct (g_dok _ _ G) as [_ [Z _]]; apply (Z i ob l (conj Hg Hl) Ed)).
+  assert (Hl0 : l <> 0%Z) by (destruct (g_dok _ _ G) as [_ [Z _]]; apply (proj1 (Z i ob l (conj Hg Hl) Ed))).
   apply (dom_request_result dom_fuel ct (o_cls ob) st (cname_of (o_name ob)) l o b Hk G Hl0).
   rewrite <- E. destruct (dom_call dom_fuel ct (o_cls ob) st (Some (cname_of (o_name ob))) (Some l) None None); reflexivity.
 Qed.
@@ -61,7 +61,7 @@ Proof.
   intros G Hi Ed Hb Ho Ec En Edo E. unfold dom_complement in E. destruct Ho as [Hg Hl]. rewrite Hg, Edo in E.
   assert (Hk : class_kind ct (o_cls oo) = Some KindD).
   { destruct (g_dok _ _ G) as [_ [_ K]]. rewrite (K o oo (conj Hg Hl)), Edo. reflexivity. }
-  assert (Hl0 : l <> 0%Z) by (destruct (g_dok _ _ G) as [_ [Z _]]; apply (Z o oo l (conj Hg Hl) Edo)).
+  assert (Hl0 : l <> 0%Z) by (destruct (g_dok _ _ G) as [_ [Z _]]; apply (proj1 (Z o oo l (conj Hg Hl) Edo))).
   rewrite En, (cname_involutive _ Hb) in E.
   apply (request_returns_the_live_one dom_fuel ct (o_cls oo) st (o_name ob) l i ob o2 b2 Hk G Hl0 Hi (eq_sym Ec) eq_refl E).
 Qed.
